@@ -32,7 +32,7 @@ TRUSTED_BASE = [
 ]
 ASSUMPTIONS = [
     "Arithmetic is exact over Q; sigma enters squared ((e-mu)^2 > n_sigma^2 * max(var, 1e-16)), equivalent to the code's |e-mu|/max(sigma,1e-8) > n_sigma for sigma' > 0",
-    "A Conformers list holds distinct objects (the code's `other is not conf` is modelled as 'every other position')",
+    "Lists holding the same conformer object at several positions are modelled positionally (as the code does: `o_idx != idx`, del self[idx]) and exercised by the stream `shared`",
     "Energies are compared in Hartree as given (unit conversion of e_tol is property C06)",
     "The RMSD oracle d is whatever calc_heavy_atom_rmsd returns; symmetry of d is used only where a theorem says so",
 ]
@@ -914,18 +914,87 @@ def stream_graph_steps(ctx, cases, fnd, full, parent, iso_bit):
                   ("dgs", tuple(rep["start"]), how, tuple(map(tuple, changes))), nontrivial=bool(changes))
 
 
+def stream_shared(ctx, cases, fnd, full):
+    """Conformer sets in which the SAME object sits at several positions (a list may hold an object twice; duplicates
+    are in the property's quantifier), pruned as they are or after Conformers.copy().  Positions are what counts:
+    an object held twice is a pair 0.000 A / 0 Ha apart, one of which must go."""
+    rng = ctx.rng
+    from autode.conformers import Conformers
+    for _ in range(150 if full else 36):
+        labels = rng.choice(RMSD_TEMPLATES[:3])
+        k = rng.randint(1, 4)
+        geoms = gen_geoms(rng, k, labels)
+        ens = [None if rng.random() < 0.15 else rng.choice([-8, -2, -1, 0, 1, 2, 8, 40]) / 16 for _ in range(k)]
+        n = rng.randint(2, 8)
+        ids = [rng.randrange(k) for _ in range(n)]
+        ids[rng.randrange(1, n)] = ids[0]                                  # at least one repeat
+        how, call = rng.choice(["as-is", "copy", "copy"]), rng.choice(["prune_on_rmsd", "prune_on_rmsd", "prune_on_energy", "prune"])
+        tol, e_tol, n_sigma, rm = rng.choice([0.05, 0.1, 0.3, 0.5]), rng.choice([1 / 32, 1 / 16, 3 / 32]), rng.choice([5, 3, 2.0]), rng.random() < 0.5
+        set_name_mode(rng.choice(NAME_MODES))
+        base = build_confs(ens, geoms, labels)
+        D = rmsd_matrix(base)
+        ens_pos = [ens[i] for i in ids]
+        if not rmsd_margin_ok(D, tol) or not energy_margin_ok(ens_pos, n_sigma):
+            continue
+        cs = Conformers([base[i] for i in ids])
+        try:
+            if how == "copy":
+                cs = cs.copy()
+            fn = {"prune_on_rmsd": lambda c: c.prune_on_rmsd(rmsd_tol=tol),
+                  "prune_on_energy": lambda c: c.prune_on_energy(e_tol=e_tol, n_sigma=n_sigma),
+                  "prune": lambda c: c.prune(e_tol=e_tol, rmsd_tol=tol, n_sigma=n_sigma, remove_no_energy=rm)}[call]
+            got = run_method(cs, fn)          # the OBJECTS left, in order (an object may appear more than once)
+        except Exception as e:  # noqa
+            got = "crash:" + type(e).__name__
+        rep = {"kind": "shared", "labels": list(labels), "geoms": geoms, "energies": ens, "object_at_position": ids, "copied_first": how == "copy",
+               "call": call, "rmsd_tol": tol, "e_tol": e_tol, "n_sigma": n_sigma, "remove_no_energy": rm, "objects_left": got, "names": NAME_MODE}
+        what = (f"a set holding objects {ids} (object i has energy {ens} and geometry i){', copied with Conformers.copy(),' if how == 'copy' else ''} "
+                f"then {call}(rmsd_tol={tol}, e_tol={e_tol}, n_sigma={n_sigma}) leaves objects {got}")
+        if isinstance(got, str) and not (got == "noconf" and call == "prune" and rm and all(e is None for e in ens_pos)):
+            fnd.add(f"Conformers.{call}|repeated-object-raises", n, what, rep)
+        if isinstance(got, list):
+            if n and not got:
+                fnd.add(f"Conformers.{call}|repeated-object-empties", n, what, rep)
+            pairs = list(itertools.combinations(range(len(got)), 2))
+            if call in ("prune_on_rmsd", "prune") and any(D[got[a]][got[b]] < tol or D[got[b]][got[a]] < tol for a, b in pairs):
+                fnd.add("Conformers.prune_on_rmsd|repeated-object-pair-within-tol", n, what + ": two of the positions left are closer than "
+                        "rmsd_tol (an object held twice is 0.000 A from itself)", rep)
+            if call in ("prune_on_energy", "prune") and any(ens[got[a]] is not None and ens[got[b]] is not None
+                                                             and abs(frac(ens[got[a]]) - frac(ens[got[b]])) < frac(e_tol) for a, b in pairs):
+                fnd.add("Conformers.prune_on_energy|repeated-object-pair-within-e_tol", n, what + ": two of the positions left are closer "
+                        "than e_tol", rep)
+        ctx.hist("shared", f"{call} {how}")
+        term = {"prune_on_rmsd": f"check_rmsd_ids {coq_nats(ids)} {qc_mat(D)} {qc(tol)} {coq_expect(got)}",
+                "prune_on_energy": f"check_energy_ids {coq_nats(ids)} {coq_ens(ens)} {qc(e_tol)} {qc(n_sigma)} {coq_expect(got)}",
+                "prune": f"check_prune_ids {coq_nats(ids)} {coq_ens(ens)} {qc_mat(D)} {qc(e_tol)} {qc(n_sigma)} {qc(tol)} {coq_bool(rm)} {coq_expect(got)}"}[call]
+        cases.add("shared", term, rep, (tuple(ids), tuple(ens), tuple(map(tuple, geoms)), how, call, tol, e_tol, n_sigma, rm), True)
+
+
 def stream_prune(ctx, cases, fnd, full):
     """Conformers.prune = remove_no_energy?; prune_on_energy; prune_on_rmsd."""
     rng = ctx.rng
+    from autode.config import Config
+    from autode.values import Distance
+    saved_threshold = Config.rmsd_threshold
     skipped = 0
     for _ in range(400 if full else 70):
         nmax = 16 if full else 8
+        Config.rmsd_threshold = saved_threshold
         kind, ens = gen_energies(rng, nmax)
         n = len(ens)
         labels = rng.choice(RMSD_TEMPLATES[:3])
         geoms = gen_geoms(rng, n, labels)
-        e_tol, n_sigma, tol, rm = rng.choice(E_TOLS), rng.choice(N_SIGMAS), rng.choice(R_TOLS), rng.random() < 0.5
+        e_tol, n_sigma, tol, rm = rng.choice(E_TOLS), rng.choice(N_SIGMAS + [5, 5, 5]), rng.choice(R_TOLS + [None, None, None]), rng.random() < 0.5
         set_name_mode(rng.choice(NAME_MODES))
+        # without an explicit rmsd_tol the threshold is autode.Config.rmsd_threshold AS IT IS WHEN prune() IS CALLED
+        cfg_tol = rng.choice([0.05, 0.1, 0.6, 1.0, None]) if tol is None else None
+        omit = tol is None and rng.random() < 0.6          # rmsd_tol not passed at all / passed as None
+        if cfg_tol is not None:
+            Config.rmsd_threshold = Distance(cfg_tol, "Å")
+
+        def call_prune(c):
+            kw = {} if omit else {"rmsd_tol": tol}
+            return c.prune(e_tol=e_tol, n_sigma=n_sigma, remove_no_energy=rm, **kw)
         tolv = rmsd_tol_value(tol)
         cs = build_confs(ens, geoms, labels)
         D = rmsd_matrix(cs)
@@ -934,12 +1003,19 @@ def stream_prune(ctx, cases, fnd, full):
         if not energy_margin_ok(ens, n_sigma) or not rmsd_margin_ok(D, tolv):
             skipped += 1
             continue
-        got = run_method(cs, lambda c: c.prune(e_tol=e_tol, rmsd_tol=tol, n_sigma=n_sigma, remove_no_energy=rm))
+        got = run_method(cs, call_prune)
         rep = {"kind": "prune", "energies": ens, "labels": list(labels), "geoms": geoms, "e_tol": e_tol, "n_sigma": n_sigma,
-               "rmsd_tol": tol, "remove_no_energy": rm, "retained": got, "names": NAME_MODE}
+               "rmsd_tol": tol, "remove_no_energy": rm, "retained": got, "names": NAME_MODE,
+               "Config.rmsd_threshold": tolv if tol is None else None, "rmsd_tol_omitted": omit}
+        if tol is None:
+            ref = run_method(build_confs(ens, geoms, labels),
+                             lambda c: c.prune(e_tol=e_tol, rmsd_tol=float(tolv), n_sigma=n_sigma, remove_no_energy=rm))
+            if got != ref:
+                fnd.add("Conformers.prune|Config.rmsd_threshold-ignored", n, f"with autode.Config.rmsd_threshold = {tolv} A set at run time, "
+                        f"prune({'no rmsd_tol' if omit else 'rmsd_tol=None'}) retains {got}; prune(rmsd_tol={tolv}) retains {ref}", dict(rep, reference=ref))
         if isinstance(got, list) and got and energy_margin_ok([ens[i] for i in got], n_sigma):
             # idempotence of the composite: a second call on the same (already pruned) object
-            again = run_method(cs, lambda c: c.prune(e_tol=e_tol, rmsd_tol=tol, n_sigma=n_sigma, remove_no_energy=rm))
+            again = run_method(cs, call_prune)
             if again != got:
                 rep2 = dict(rep, second_call=again)
                 if isinstance(again, list) and second_pass_only_new_outliers(ens, n_sigma, got, again):
@@ -961,6 +1037,7 @@ def stream_prune(ctx, cases, fnd, full):
         ctx.hist("prune", f"result={'raises' if isinstance(got, str) else 'deleted' if len(got) < n else 'unchanged'}")
         cases.add("prune", f"check_prune {coq_ens(ens)} {qc_mat(D)} {qc(e_tol)} {qc(n_sigma)} {qc(tolv)} {coq_bool(rm)} {coq_expect(got)}",
                   rep, (tuple(ens), tuple(map(tuple, geoms)), e_tol, n_sigma, tol, rm), nontrivial=(got != list(range(n))))
+    Config.rmsd_threshold = saved_threshold
     ctx.cov["streams"].setdefault("prune", {"evaluations": 0, "distinct_nontrivial": 0})["margin_skipped"] = skipped
 
 
@@ -1036,7 +1113,9 @@ def stream_select(ctx, cases, fnd, full):
     from autode.mol_graphs import make_graph, is_isomorphic
     from autode.exceptions import NoConformers
     labels = ("C", "C", "O", "N")
-    e_tol, n_sigma, tolv = default_e_tol(), inspect.signature(Conformers.prune).parameters["n_sigma"].default, rmsd_tol_value(None)
+    e_tol, n_sigma = default_e_tol(), inspect.signature(Conformers.prune).parameters["n_sigma"].default
+    from autode.values import Distance as _Distance
+    saved_threshold = Config.rmsd_threshold
     grid = [-3, -2, -1, 0, 0, 1, 2, 5, 400]
 
     def method(name, table):
@@ -1114,6 +1193,9 @@ def stream_select(ctx, cases, fnd, full):
             geoms1 = [ccon_geom(p, *f) for p, f in zip(phis, offs1)]
             geoms2 = [ccon_geom(p, *f) for p, f in zip(phis2, offs2)]
             set_name_mode(rng.choice(NAME_MODES))
+            # the RMSD threshold of the search is autode.Config.rmsd_threshold at the time of the call
+            tolv = rng.choice([float(saved_threshold), float(saved_threshold), 0.1, 0.6, 1.0])
+            Config.rmsd_threshold = _Distance(tolv, "Å")
             D = rmsd_matrix(build_confs([None] * n, geoms1, labels))            # prune sees the low-level geometries
             check_rmsd_oracle(fnd, labels, geoms1, D, {"kind": "select"})
             if not energy_margin_ok(ens1, n_sigma) or not rmsd_margin_ok(D, tolv):
@@ -1134,7 +1216,8 @@ def stream_select(ctx, cases, fnd, full):
             hm = None if stage is None else method("high", {i: (geoms2[i], ens2[i]) for i in range(n)})
             base = {"kind": "select", "hmethod": stage, "hmethod_sp_conformers": cfg_sp, "allow": allow, "low_energies": ens1,
                     "final_energies": ens2, "phis": phis, "low_detached": offs1, "final_detached": offs2,
-                    "final_isomorphic": isos, "names": NAME_MODE, "graphs_cached_at_generation": precached}
+                    "final_isomorphic": isos, "names": NAME_MODE, "graphs_cached_at_generation": precached,
+                    "Config.rmsd_threshold": tolv}
             Config.hmethod_sp_conformers = cfg_sp
             # state left by earlier work on the same object: the species may already carry an energy (from another level
             # of theory: lower than any conformer energy here) and may already have been searched once
@@ -1186,6 +1269,11 @@ def stream_select(ctx, cases, fnd, full):
                 if ens2[sel] is None or ens2[sel] != min(have):
                     fnd.add("Species.find_lowest_energy_conformer|selected-not-minimum-of-retained", n,
                             f"{what}; the selected conformer (E={ens2[sel]}) is not the minimum {min(have)} of the retained", rep)
+                close = [(i, j) for i, j in itertools.permutations(retained, 2) if D[i][j] < tolv]
+                if close:
+                    fnd.add("Species.find_lowest_energy_conformer|retained-pair-within-Config.rmsd_threshold", n,
+                            f"{what}; with autode.Config.rmsd_threshold = {tolv} A at the time of the call the retained conformers "
+                            f"{close[0]} have a low-level heavy-atom RMSD of {D[close[0][0]][close[0][1]]!r}", rep)
                 if not allow and not isos[sel]:
                     fnd.add("Species.find_lowest_energy_conformer|selected-has-different-graph", n,
                             f"{what}; the FINAL geometry of the selected conformer has a bond graph that differs from the parent's "
@@ -1203,6 +1291,7 @@ def stream_select(ctx, cases, fnd, full):
                       nontrivial=(retained != list(range(n))))
     finally:
         Conformers.optimise, Conformers.single_point, Config.hmethod_sp_conformers = saved
+        Config.rmsd_threshold = saved_threshold
         os.chdir(cwd)
     ctx.cov["streams"].setdefault("select", {"evaluations": 0, "distinct_nontrivial": 0})["margin_skipped"] = skipped
 
@@ -1450,6 +1539,7 @@ def run(ctx):
                      ("prune", lambda: stream_prune(ctx, cases, fnd, full)),
                      ("select", lambda: stream_select(ctx, cases, fnd, full)),
                      ("atomless", lambda: stream_atomless(ctx, fnd, full)),
+                     ("shared", lambda: stream_shared(ctx, cases, fnd, full)),
                      ("complex", lambda: stream_complex(ctx, cases, fnd, full)),
                      ("rigid-body", lambda: stream_rigid(ctx, fnd, full))):
         try:
